@@ -1,0 +1,5 @@
+//go:build !verif
+
+package pipeline
+
+func verifPoint(string, string, uint64, []byte, int64) {}
